@@ -3,7 +3,6 @@ package vuego
 import (
 	"fmt"
 	"reflect"
-	"sort"
 	"strings"
 	"sync"
 
@@ -118,15 +117,6 @@ func sortedMapEntries(what string, params []any) ([]any, []any, error) {
 	if v.Kind() != reflect.Map {
 		return nil, nil, fmt.Errorf("cannot %s %s", what, v.Kind())
 	}
-	mapKeys := v.MapKeys()
-	sort.Slice(mapKeys, func(i, j int) bool {
-		return keyLess(mapKeys[i].Interface(), mapKeys[j].Interface())
-	})
-	keys := make([]any, len(mapKeys))
-	values := make([]any, len(mapKeys))
-	for i, k := range mapKeys {
-		keys[i] = k.Interface()
-		values[i] = v.MapIndex(k).Interface()
-	}
+	keys, values := mapEntries(v)
 	return keys, values, nil
 }
